@@ -262,3 +262,12 @@ PROPS["C01"] = dict(
          "EOF is not an in-band character. Found the level leak of Marker::undo / empty complete (fixed) and the NUL sentinel (open finding).",
     note="Not decided: that lexer token ranges tile the text, that trivia tokens are all forwarded, doc-lexer re-lexing ranges "
          "(index arithmetic). Path feasibility uses Result-variant knowledge only. Trusted: rustc MIR, emmyfacts.")
+
+PROPS["C02"] = dict(
+    module="c02", func="run", level="other", crates=["emmylua_parser"],
+    technique="progress (must-consume) summaries + natural-loop cycle search, call-graph SCCs with left-recursion and depth-guard tests, explicit-panic audit",
+    text="Decides the structural termination conditions of the parser: every loop of lexer/parser/grammar progresses on every cycle "
+         "(three loops audited with their argument), and whether each recursive cycle has a depth guard (none has: two open findings with the failing input); explicit panics are discharged.",
+    note="Not decided: linear-time complexity, allocation failure, termination of the lexers' own loops (value-level: each lex call "
+         "consumes a character), absence of left recursion (needs token-kind correlation; listed as informational), and the "
+         "indexing/unwrap panic surface of the parser (about 60 sites over token arrays, not audited in this round).")
